@@ -8,8 +8,10 @@ package main
 import (
 	"bufio"
 	"fmt"
+	"io"
 	"math/rand"
 	"sort"
+	"strings"
 
 	"github.com/nspcc-dev/dbft"
 )
@@ -35,7 +37,10 @@ func genRuns(w *bufio.Writer, seed int64, from, to int, stats map[string]int) {
 	}
 }
 
-func genRun(w *bufio.Writer, rng *rand.Rand, run int, stats map[string]int) {
+func genRun(w *bufio.Writer, rng *rand.Rand, run int, stats map[string]int) { genRunAt(w, rng, run, stats, 0, nil) }
+
+// genRunAt: the same run with the virtual clock origin moved by shift ns; obs (if not nil) collects the C14 observables.
+func genRunAt(w *bufio.Writer, rng *rand.Rand, run int, stats map[string]int, shift int64, obs *[]string) {
 	N := 1 + rng.Intn(7)
 	if rng.Intn(12) == 0 {
 		N = 8 + rng.Intn(5)
@@ -95,6 +100,8 @@ func genRun(w *bufio.Writer, rng *rand.Rand, run int, stats map[string]int) {
 			n.inc = inc
 			n.tpb = timeDur(tpb)
 			n.maxTpb = timeDur(tpb * int64(2+rng.Intn(3)))
+			n.epoch += shift
+			n.s14 = obs
 		})
 		nodes[i].height = startHeight
 	}
@@ -160,11 +167,11 @@ func genRun(w *bufio.Writer, rng *rand.Rand, run int, stats map[string]int) {
 		case 2:
 			return &Payload{dbft.PrepareResponseType, h, v, idx, prepResp{randHash()}}
 		case 3:
-			return &Payload{dbft.ChangeViewType, h, v, idx, chView{byte(1 + rng.Intn(3)), 0, uint64(rng.Intn(1000))}}
+			return &Payload{dbft.ChangeViewType, h, v, idx, chView{byte(1 + rng.Intn(3)), 0, uint64(ref.epoch + int64(rng.Intn(1000)))}}
 		case 4:
-			return &Payload{dbft.PrepareRequestType, h, v, idx, prepReq{uint64(1600000000000000000 + rng.Int63n(9e9)), uint64(rng.Intn(99)), []H{Tx(uint64(h)*10 + 1).Hash()}}}
+			return &Payload{dbft.PrepareRequestType, h, v, idx, prepReq{uint64(ref.epoch/1000000*1000000 + rng.Int63n(9e9)), uint64(rng.Intn(99)), []H{Tx(uint64(h)*10 + 1).Hash()}}}
 		case 5:
-			return &Payload{dbft.RecoveryRequestType, h, v, idx, recReq{uint64(rng.Intn(1000))}}
+			return &Payload{dbft.RecoveryRequestType, h, v, idx, recReq{uint64(ref.epoch + int64(rng.Intn(1000)))}}
 		default:
 			rm := &recMsg{}
 			for k := 0; k < rng.Intn(6) && len(seen) > 0; k++ {
@@ -205,13 +212,13 @@ func genRun(w *bufio.Writer, rng *rand.Rand, run int, stats map[string]int) {
 			for other == pi {
 				other = uint16(rng.Intn(nv))
 			}
-			p = &Payload{dbft.PrepareRequestType, h, v, other, prepReq{uint64(rng.Int63()), 1, []H{Tx(5).Hash()}}}
+			p = &Payload{dbft.PrepareRequestType, h, v, other, prepReq{uint64(n.epoch + rng.Int63n(1e12)), 1, []H{Tx(5).Hash()}}}
 		case 3: // proposal / response for a lower view
 			if v == 0 {
 				return
 			}
 			if rng.Intn(2) == 0 {
-				p = &Payload{dbft.PrepareRequestType, h, v - 1, uint16(d.GetPrimaryIndex(v - 1)), prepReq{uint64(rng.Int63()), 1, nil}}
+				p = &Payload{dbft.PrepareRequestType, h, v - 1, uint16(d.GetPrimaryIndex(v - 1)), prepReq{uint64(n.epoch + rng.Int63n(1e12)), 1, nil}}
 			} else {
 				p = &Payload{dbft.PrepareResponseType, h, v - 1, other, prepResp{randHash()}}
 			}
@@ -349,4 +356,63 @@ func genRun(w *bufio.Writer, rng *rand.Rand, run int, stats map[string]int) {
 		collect()
 	}
 	endRun(w, mon, nodes...)
+}
+
+// shiftRuns (C14): every run is executed twice on the real library, with virtual clock origins E and E+D (D a multiple of the
+// timestamp increment; the second execution also happens later in wall-clock time). The sequences of payload kinds, relative
+// timestamps and requested timer durations must be identical.
+func shiftRuns(w *bufio.Writer, seed int64, from, to int, stats map[string]int) {
+	offsets := []int64{7e9 * 514, -7e9 * 514, 7e9 * 45051428, -7e9 * 45051428, 7e9 * 54061714, 7e9} // multiples of every increment used (1, 7, 1e3, 1e6, 1e9 ns): about 1 h, 10 y, 12 y (beyond today's wall clock), 7 s
+	for run := from; run < to; run++ {
+		D := offsets[run%len(offsets)]
+		sink := bufio.NewWriter(io.Discard)
+		exec := func(shift int64) []string {
+			var o []string
+			genRunAt(sink, rand.New(rand.NewSource(runSeed(seed, run))), run, map[string]int{}, shift, &o)
+			return o
+		}
+		same := func(x, y []string) int {
+			for i := 0; i < len(x) || i < len(y); i++ {
+				if i >= len(x) || i >= len(y) || x[i] != y[i] {
+					return i
+				}
+			}
+			return -1
+		}
+		// the library iterates Go maps when it replays cached payloads, so two executions with the SAME clock can
+		// differ; such runs say nothing about clocks and are skipped (counted)
+		a, b := exec(0), exec(D)
+		stats["shift-runs"]++
+		stats[fmt.Sprintf("shift-D=%d", D)]++
+		fmt.Fprintf(w, "RUN %d N 0 CFG 0 0 0\n", run)
+		fmt.Fprintf(w, "MONCNT C14 %d\n", len(a))
+		if diff := same(a, b); diff >= 0 {
+			// two executions with the SAME clock can differ too (map iteration order): collect the outcomes of repeated
+			// executions on both sides; only disjoint outcome sets are a dependence on the clock
+			key := func(l []string) string { return strings.Join(l, "\n") }
+			as, bs := map[string]bool{key(a): true}, map[string]bool{key(b): true}
+			shared := false
+			for i := 0; i < 12 && !shared; i++ {
+				as[key(exec(0))] = true
+				bs[key(exec(D))] = true
+				for k := range as {
+					if bs[k] {
+						shared = true
+					}
+				}
+			}
+			if shared {
+				stats["shift-nondeterministic-but-clock-independent"]++
+			} else {
+				get := func(l []string, i int) string {
+					if i < len(l) {
+						return l[i]
+					}
+					return "<end>"
+				}
+				fmt.Fprintf(w, "MON C14 shift-variant | run %d: clocks E and E%+dns diverge at observable #%d: [%s] vs [%s] (%d/%d distinct outcomes, none shared)\n", run, D, diff, get(a, diff), get(b, diff), len(as), len(bs))
+			}
+		}
+		fmt.Fprintf(w, "ENDRUN\n")
+	}
 }
